@@ -23,7 +23,8 @@ TECHNIQUE = "stateless exploration (DFS, prefix replay) of every linearisation o
 RULE = (
     "all rooted ordered scope trees with <= N nodes x scope kind (sync/async) x completion "
     "callback kind (all sync / alternating sync-async) x placement of every non-root node "
-    "{inline, ctx.spawn, plain create_task}; every linearisation of the enter/exit events; "
+    "{inline, ctx.spawn, plain create_task}; every linearisation of the enter/exit events; plus a "
+    "nested scope whose suspended disposable enter is cancelled; "
     "non-trivial = some child runs in another task than its parent"
 )
 ASSUMPTIONS = [
